@@ -748,6 +748,36 @@ func ruleORDSORT(c *Ctx) []Obligation {
 								if ix, ok := unparen(l).(*ast.IndexExpr); ok && rs.Key != nil && exprString(ix.Index) != exprString(rs.Key) {
 									o.Verdict, o.Detail = VIOL, "list slot is not indexed by the position in the sorted key slice"
 								}
+								// one element per sorted key: the store is a top-level statement of the loop
+								// body and no iteration is skipped — otherwise an element can sit at the
+								// position of a key that is not the name it prints under (an alias of it)
+								top := false
+								for _, bst := range rs.Body.List {
+									if bst == ast.Stmt(as2) {
+										top = true
+									}
+								}
+								skip := token.NoPos
+								ast.Inspect(rs.Body, func(q ast.Node) bool {
+									switch x := q.(type) {
+									case *ast.FuncLit, *ast.ForStmt:
+										return false
+									case *ast.RangeStmt:
+										return x == rs
+									case *ast.BranchStmt:
+										if (x.Tok == token.CONTINUE || x.Tok == token.BREAK) && skip == token.NoPos {
+											skip = x.Pos()
+										}
+									}
+									return true
+								})
+								if o.Verdict == OK && (!top || skip != token.NoPos) {
+									o.Verdict = VIOL
+									o.Detail = "the fill loop over the sorted keys does not store exactly one element per key (conditional store, or continue / break): an element can take the position of a key other than the name it is printed under, so the list is not in the canonical order of its printed names"
+									if skip != token.NoPos {
+										o.Pos = c.pos(skip)
+									}
+								}
 								filled[field] = true
 								obs = append(obs, o)
 							}
